@@ -196,5 +196,21 @@ pub fn check(cx: &Cx, rep: &mut Report) {
             }
         }
     }
+    // R3 (cont.): "carries on ... with its state intact" includes the timers it had registered: an abandoned
+    // invocation must not disturb their schedule (same arithmetic as C10, adopted for actors that had a timeout)
+    let abandoned_actors: Vec<u32> = fx.values().filter(|a| a.decl.map(|d| d.timeout.is_some() && !d.fail_on_timeout).unwrap_or(false) && !a.faulted && ix.actors[&a.task].timeline.iter().any(|t| matches!(t, crate::index::TL::Inv(j) if ix.invs[*j].abandoned.is_some()))).map(|a| a.task).collect();
+    if !abandoned_actors.is_empty() {
+        let mut sub = Report::default();
+        super::c10::check(cx, &mut sub);
+        let tms = super::c10::timers(cx);
+        if tms.iter().any(|t| abandoned_actors.contains(&t.actor)) {
+            rep.premise("C11.R3.timers_intact_after_timeout");
+        }
+        for v in sub.violations.into_iter().filter(|v| v.rule == "R2") {
+            if tms.iter().any(|t| abandoned_actors.contains(&t.actor) && v.at.first() == Some(&t.reg)) {
+                rep.fail(P, "R3", format!("timers_disturbed_by_timeout;{}", v.sig), v.msg, v.at);
+            }
+        }
+    }
     rep.nontrivial = nontrivial;
 }
